@@ -20,9 +20,12 @@ Definition show_token (t : token) : string :=
 Definition show_tokens (l : list token) : string := String.concat "," (map show_token l).
 
 (** inl tree: flattened bytes and their tokens;  inr doc: tokens of a raw document
-    (cross-validation of the reference tokenizer only) *)
+    (cross-validation of the reference tokenizer, of the
+    transcribed WHATWG comment states run on the document as a comment body, and of the guard) *)
 Definition run_show (c : node + list N) : string :=
   match c with
   | inl t => show_hex (flatten false t) ++ " " ++ show_tokens (tokenize (flatten false t))
-  | inr d => "- " ++ show_tokens (tokenize d)
+  | inr d => "- " ++ show_tokens (tokenize d) ++ " h"
+             ++ show_hex (fst (html_comment CStart [] d)) ++ ":" ++ show_nat (List.length (snd (html_comment CStart [] d)))
+             ++ ":" ++ show_bool (html5_guard d)
   end.
